@@ -55,6 +55,19 @@ func TestTranslatorAgainstNativeGo(t *testing.T) {
 	if err != nil {
 		t.Fatal(err)
 	}
+	// [BitsCode] uint64 words, math/bits.OnesCountN, struct literals, named results: a third specification (struct Words)
+	body3, err := Translate(".", TransSpec{Dir: "internal/sample", Structs: []string{"Words"}, Funcs: []string{
+		"WordIdx", "Pop64", "WordsScript", "Locate", "NamedSum"}})
+	if err != nil {
+		t.Fatal(err)
+	}
+	// function-typed parameters / fields and in-out slice parameters (trans_func.go): a second specification, with InOut
+	body2, err := Translate(".", TransSpec{Dir: "internal/sample", Structs: []string{"Sorter"}, InOut: true, Funcs: []string{
+		"Exch", "NoExch", "ExchIf", "Bubble", "DryRun", "Pass", "FirstLast", "Sorter.Sort", "Sorter.Min"}})
+	if err != nil {
+		t.Fatal(err)
+	}
+	body += body2 + body3
 	var ex []string
 	add := func(call string, f func() string) {
 		ex = append(ex, fmt.Sprintf("Example ex%d : %s = %s.\nProof. vm_compute. reflexivity. Qed.", len(ex), call, native(f)))
@@ -133,6 +146,91 @@ func TestTranslatorAgainstNativeGo(t *testing.T) {
 			}
 		}
 	}
+	// trans_func.go: function values are given on the Coq side as lambdas / generated functions
+	lt, gt := "(fun a b => a <? b)", "(fun a b => b <? a)"
+	ltF, gtF := func(a, b int) bool { return a < b }, func(a, b int) bool { return a > b }
+	for _, s := range slices {
+		s := s
+		cp := func() []int { return append([]int(nil), s...) }
+		for _, o := range []struct {
+			coq string
+			f   func(int, int) bool
+		}{{lt, ltF}, {gt, gtF}} {
+			o := o
+			add(fmt.Sprintf("g_Bubble 200 %s %s g_Exch", ls(s), o.coq), func() string {
+				c := cp()
+				n := sample.Bubble(c, o.f, sample.Exch[int])
+				return "(" + ls(c) + ", " + zs(n) + ")"
+			})
+			add(fmt.Sprintf("g_DryRun 200 %s %s", ls(s), o.coq), func() string {
+				c := cp()
+				n := sample.DryRun(c, o.f)
+				return "(" + ls(c) + ", " + zs(n) + ")"
+			})
+			add(fmt.Sprintf("g_Sorter_Sort 200 (mkSorter %s %s 5)", ls(s), o.coq), func() string {
+				c := cp()
+				n := sample.SortWith(c, o.f, 5)
+				return fmt.Sprintf("(mkSorter %s %s %s, %s)", ls(c), o.coq, zs(n), zs(n))
+			})
+			add(fmt.Sprintf("g_Sorter_Min 200 (mkSorter %s %s 0)", ls(s), o.coq), func() string {
+				m, ok := sample.MinWith(cp(), o.f)
+				return "(" + zs(m) + ", " + bs(ok) + ")"
+			})
+			for _, a := range []int{-1, 4} {
+				a := a
+				add(fmt.Sprintf("g_FirstLast %s %s %s 3", ls(s), o.coq, zs(a)), func() string { return bs(sample.FirstLast(s, o.f, a, 3)) })
+			}
+		}
+		add("g_Pass 200 "+ls(s)+" g_ExchIf", func() string {
+			c := cp()
+			n := sample.Pass(c, sample.ExchIf)
+			return "(" + ls(c) + ", " + zs(n) + ")"
+		})
+		for _, i := range []int{-1, 0, 2, 6, 10} {
+			for _, j := range []int{0, 1, 7} {
+				i, j := i, j
+				add(fmt.Sprintf("g_Exch %s %s %s", ls(s), zs(i), zs(j)), func() string { c := cp(); sample.Exch(c, i, j); return ls(c) })
+				add(fmt.Sprintf("g_ExchIf %s %s %s", ls(s), zs(i), zs(j)), func() string {
+					c := cp()
+					b := sample.ExchIf(c, i, j)
+					return "(" + ls(c) + ", " + bs(b) + ")"
+				})
+			}
+		}
+	}
+	ex = append(ex, "Example fuel4 : g_Bubble 3 [3; 2; 1] (fun a b => a <? b) g_Exch = NoFuel.\nProof. vm_compute. reflexivity. Qed.")
+	// [BitsCode] uint64 words: int(u >> c), math/bits.OnesCountN, struct literals
+	words := []uint64{0, 1, 63, 64, 65, 4095, 1 << 31, 1<<32 - 1, 1 << 32, 0x5555555555555555, 1 << 63, 1<<64 - 1, 1<<64 - 64}
+	for _, a := range words {
+		a := a
+		add(fmt.Sprintf("g_WordIdx %d", a), func() string {
+			p, q, r, h := sample.WordIdx(uint(a))
+			return fmt.Sprintf("(%d, %d, %d, %d)", p, q, r, h)
+		})
+		for _, b := range words {
+			b := b
+			add(fmt.Sprintf("g_Pop64 %d %d", a, uint32(b)), func() string { return zs(sample.Pop64(a, uint32(b))) })
+			for _, k := range []uint{0, 5, 63, 64, 127, 128, 300} {
+				k := k
+				add(fmt.Sprintf("g_WordsScript 200 %d %d %d", a, b, k), func() string {
+					n, l, last, wl := sample.WordsScript(a, b, k)
+					return fmt.Sprintf("(%d, %d, %d, %d)", n, l, last, wl)
+				})
+			}
+		}
+	}
+	// [BitsCode] named results
+	for _, a := range words {
+		a := a
+		add(fmt.Sprintf("g_Locate %d", a), func() string { i, m := sample.Locate(uint(a)); return fmt.Sprintf("(%d, %d)", i, m) })
+	}
+	for _, sl := range slices {
+		sl := sl
+		for _, lim := range []int{-5, 0, 3, 10, 100} {
+			lim := lim
+			add(fmt.Sprintf("g_NamedSum 200 %s %s", ls(sl), zs(lim)), func() string { t, c := sample.NamedSum(sl, lim); return "(" + zs(t) + ", " + bs(c) + ")" })
+		}
+	}
 	// out of fuel is its own value
 	ex = append(ex, "Example fuel1 : g_SumTo 5 10 = NoFuel.\nProof. vm_compute. reflexivity. Qed.")
 	ex = append(ex, "Example fuel2 : g_SumTo 11 10 = Ret 55.\nProof. vm_compute. reflexivity. Qed.")
@@ -164,12 +262,26 @@ func TestTranslatorAgainstNativeGo(t *testing.T) {
 
 // everything outside the subset must be refused with a position
 func TestTranslatorFailsClosed(t *testing.T) {
-	for _, fn := range []string{"Alias", "Closure", "Recursive", "Goroutine", "MapUse", "WriteParam", "Labelled", "PtrArith", "Defer", "Box.OrderDep"} {
-		_, err := Translate(".", TransSpec{Dir: "internal/refused", Structs: []string{"Box"}, Funcs: []string{fn}})
+	for _, fn := range []string{"Alias", "Closure", "Recursive", "Goroutine", "MapUse", "WriteParam", "Labelled", "PtrArith", "Defer", "Box.OrderDep", "LitAlias", "BigConv"} {
+		_, err := Translate(".", TransSpec{Dir: "internal/refused", Structs: []string{"Box", "Pack"}, Funcs: []string{fn}})
 		if err == nil || !strings.Contains(err.Error(), "unsupported") || !strings.Contains(err.Error(), "refused.go:") {
 			t.Errorf("%s: expected `unsupported: ... at file:line`, got %v", fn, err)
 		} else {
 			t.Logf("%s: %v", fn, err)
 		}
+	}
+	// with in-out slice parameters switched on (trans_func.go)
+	for _, fn := range []string{"EscWrite", "TwiceSame", "UsePure", "Getter", "NilFunc", "both3", "Alias"} {
+		_, err := Translate(".", TransSpec{Dir: "internal/refused", Structs: []string{"Box"}, Funcs: []string{fn}, InOut: true})
+		if err == nil || !strings.Contains(err.Error(), "unsupported") || !strings.Contains(err.Error(), "refused.go:") {
+			t.Errorf("%s (InOut): expected `unsupported: ... at file:line`, got %v", fn, err)
+		} else {
+			t.Logf("%s (InOut): %v", fn, err)
+		}
+	}
+	// ... and WriteParam, refused without it, is translated with it: the parameter comes back
+	if out, err := Translate(".", TransSpec{Dir: "internal/refused", Funcs: []string{"WriteParam"}, InOut: true}); err != nil ||
+		!strings.Contains(out, "Definition g_WriteParam (s : list Z) : M (list Z)") {
+		t.Errorf("WriteParam (InOut): %v\n%s", err, out)
 	}
 }
